@@ -527,14 +527,17 @@ def dict_mutations():
 
 # --------------------------------------------------------------------------- cases
 
+STRING_LENGTH = {"quick": 6, "thorough": 8}
+
+
 def gen_cases(tier):
-    L = 5 if tier == "quick" else 7
+    L = STRING_LENGTH[tier]
     cases = []
-    # (a) strings: chunked by their first two letters
+    # (a) strings: chunked by their first two (from length 7 on: three) letters
     for n in range(0, 3):
         cases.append({"layer": "a", "length": n, "prefix": ""})
     for n in range(3, L + 1):
-        for pre in itertools.product(ALPHABET, repeat=2):
+        for pre in itertools.product(ALPHABET, repeat=2 if n < 7 else 3):
             cases.append({"layer": "a", "length": n, "prefix": "".join(pre)})
     g = grammar_docs(tier)
     for i in range(0, len(g), 150):
@@ -643,7 +646,7 @@ def check(tier):
     cases = gen_cases(tier)
     for c in cases:
         c["tier"] = tier
-    run.bounds = {"string_length": 5 if tier == "quick" else 7, "alphabet": ALPHABET, "grammar_documents": len(grammar_docs(tier)),
+    run.bounds = {"string_length": STRING_LENGTH[tier], "alphabet": ALPHABET, "grammar_documents": len(grammar_docs(tier)),
                   "mutations": {n: len(mutations(t)) for n, t in seeds()}, "dictionary_inputs": len(dict_mutations())}
     run.layer("cases", chunks=len(cases))
     par.run_cases(run, "checks.c16", cases, nchunks=par.JOBS * 16)
